@@ -5,6 +5,7 @@ from harness.families import ALL_FAMS, fam, sizes
 from harness.minijar import Storage, Jar
 from harness.treelib import TreeEnv, RefMap, walk_invariants
 from harness.props.c01 import gen_history
+from harness.props.c04 import f16_condition
 
 PROPS_FILE = "Props/C05.v"
 MODEL_FILES = ["Model/RTree.v", "Model/TreeRun.v", "Model/Persist.v", "Model/PersistRun.v"]
@@ -14,6 +15,7 @@ RULE = ("(a) histories on stored containers with cache sweeps / single-node deac
         "unusable bound), no node may remain sticky and every stored unchanged node must be evictable; distinct by "
         "(history, sweep placement); non-trivial = the tree has >= 2 leaves at some sweep")
 ASSUMPTIONS = ["harness/minijar.py + persistent.PickleCache stand in for the ZODB connection and its cache",
+               "a tree in the shape of finding F16 (a non-root node holding one never-stored leaf) is not committed: the history is cut there",
                "thread interleavings are outside the property"]
 STICKY = 2
 
@@ -75,6 +77,11 @@ def part_a(ctx, rng, n):
             multi = False
             for i, c in enumerate(calls):
                 r = rng.random()
+                if r < 0.5 and kind in ("BTree", "TreeSet") and f16_condition(None, t):
+                    # committing this shape stores a damaged tree (finding F16 of C04, recorded there):
+                    # everything after it would only re-report that finding
+                    ctx.cov["histories_cut_at_F16_shape"] = ctx.cov.get("histories_cut_at_F16_shape", 0) + 1
+                    break
                 if r < 0.25:
                     jar.commit()
                     jar.minimize()                      # everything becomes a ghost
@@ -164,7 +171,11 @@ def part_b(ctx, rng, n):
                             r = ("ok", repr(t.pop()) if setlike else t.pop(k, None))
                         else:
                             SweepKey.hook = None
-                            jar.commit()
+                            if f16_condition(None, t):
+                                # not committed: this shape is stored damaged (finding F16 of C04)
+                                ctx.cov["commits_skipped_at_F16_shape"] = ctx.cov.get("commits_skipped_at_F16_shape", 0) + 1
+                            else:
+                                jar.commit()
                             r = ("ok", None)
                     except (KeyError, ValueError) as e:
                         r = (type(e).__name__,)
